@@ -131,6 +131,9 @@ def make_suite(rnd, proj, with_collect_error=False):
             files["helper_cfg.py"] = "def load():\n    raise RuntimeError('bad config')\n"
             for nm in ("test_cfg_a.py", "test_cfg_b.py"):
                 files[nm] = "import helper_cfg\nCFG = helper_cfg.load()\n\ndef test_x():\n    pass\n"
+        # the SAME error rendered differently in every worker process (the text embeds the worker id / the process id / an address)
+        files["test_envcfg.py"] = ("import os\nclass Cfg:\n    pass\nCFG = Cfg()\n"
+                                   "assert not (CFG, os.getpid(), os.environ.get('PYTEST_XDIST_WORKER')), 'needs configuration'\n\ndef test_y():\n    pass\n")
         if rnd.random() < 0.4:
             files["test_skipmod.py"] = "import pytest\npytest.skip('whole module', allow_module_level=True)\n"
     for fn, src in files.items():
